@@ -103,7 +103,8 @@ def inject(rng, text):
                 newn = rng.choice([None, "n1", "zz", "*", "+", "alpha"])
                 parts = parts[:1] + ([newn] if newn else [])
             lines = list(lines)
-            lines[i] = "<%s%s>" % (" ".join(parts), "/" if empty else "")
+            hdr = " ".join(parts)
+            lines[i] = "<%s%s>" % (hdr, "/" if empty else (" " if hdr.endswith("/") else ""))
             return kind, join(lines)
         if kind == "delete" and n:
             i = rng.randrange(n)
@@ -128,7 +129,7 @@ def inject(rng, text):
             if s.endswith("/>"):
                 body = s[1:-2].strip()
                 t = body.split()[0]
-                lines = lines[:i] + ["<%s>" % body, "</%s>" % t] + lines[i + 1:]
+                lines = lines[:i] + ["<%s%s>" % (body, " " if body.endswith("/") else ""), "</%s>" % t] + lines[i + 1:]
             elif i + 1 < n and lines[i + 1].strip().startswith("</"):
                 lines = lines[:i] + [s[:-1] + "/>"] + lines[i + 2:]
             else:
